@@ -40,14 +40,16 @@ inductive Step
   | remove (oid : Oid)                      -- integrity check discarding a mismatching object
   deriving Repr
 
+/-- the mode bits survive a truncation -/
+def protOf : Option Obj → Bool
+  | some o => o.prot
+  | none => false
+
 def exec (s : S) : Step → S
   | .probeCreate oid =>
-    -- O_TRUNC on an existing file would clobber it; the implementation only probes names that do not exist
-    if s.objs.contains oid then s else { s with objs := s.objs.set oid { data := [], prot := false } }
-  | .probeUnlink oid =>
-    match s.objs.lookup oid with
-    | some o => if o.data = [] ∧ o.prot = false then { s with objs := s.objs.erase oid } else s
-    | none => s
+    -- `os.open(dst, O_WRONLY|O_CREAT|O_TRUNC)`: creates an empty file, or truncates what is there (the mode stays)
+    { s with objs := s.objs.set oid { data := [], prot := protOf (s.objs.lookup oid) } }
+  | .probeUnlink oid => { s with objs := s.objs.erase oid }      -- `os.unlink(dst)` after the clone ioctl failed
   | .tmpCreate t => { s with tmps := s.tmps.set t [] }
   | .append t c =>
     match s.tmps.lookup t with
